@@ -474,6 +474,40 @@ func (e *intervalEnv) rangeOf(v ssa.Value, facts ssau.FactSet, seen map[ssa.Valu
 		if okx && oky {
 			if br, ok := binopRange(x.Op, xr, yr, tr); ok && br.within(tr) {
 				r = br
+			} else if x.Op == token.SUB {
+				// x - y with a dominating comparison of the two: no wrap, and a lower bound.
+				// The comparison may dominate the use, or the definition of the difference:
+				// an SSA value keeps the relation its operands had when it was computed.
+				xp, yp := stripConv(ssau.Path(x.X)), stripConv(ssau.Path(x.Y))
+				all := ssau.FactSet{}
+				for f := range facts {
+					all[f] = true
+				}
+				if x.Parent() == e.fn && x.Block() != nil {
+					for f := range e.ff.At(x) {
+						all[f] = true
+					}
+				}
+				for f := range all {
+					a, b := stripConv(f.Path), stripConv(f.Arg)
+					lo := int64(-1)
+					switch {
+					case a == yp && b == xp && f.Kind == "lt", a == xp && b == yp && f.Kind == "gt":
+						lo = 1
+					case a == yp && b == xp && f.Kind == "le", a == xp && b == yp && f.Kind == "ge":
+						lo = 0
+					}
+					if lo >= 0 {
+						hi := new(big.Int).Sub(xr.hi, yr.lo)
+						if hi.Cmp(tr.hi) > 0 {
+							hi = tr.hi
+						}
+						if c := (ival{bi(lo), hi}); c.within(tr) && !c.empty() {
+							r = c
+							e.note("difference of two operands ordered by a dominating comparison")
+						}
+					}
+				}
 			}
 		}
 	case *ssa.UnOp:
